@@ -48,6 +48,14 @@ let backend_name = function BDef -> "def" | BV128 -> "v128" | BV256 -> "v256"
 
 let has_flag f rest = List.mem f rest
 
+(* "@<lineno>" tokens stand for the output bytes of an earlier line *)
+let saved : (int, string) Hashtbl.t = Hashtbl.create 64
+let subst tok =
+  if String.length tok > 1 && tok.[0] = '@' then
+    (try Hashtbl.find saved (int_of_string (String.sub tok 1 (String.length tok - 1)))
+     with Not_found -> failwith ("no saved output for " ^ tok))
+  else tok
+
 let parse (toks : string list) : op option =
   match toks with
   | [] -> None
@@ -96,8 +104,9 @@ let print_events ln (evs : event list) =
       | EAllocFail -> "allocfail"
       | EFree (n, z) -> Printf.sprintf "free %d %s" (int_of_n n) (if z then "zero" else "nonzero")
       | ERet r -> Printf.sprintf "ret %d" (int_of_n r)
-      | ERetOut (r, o) -> Printf.sprintf "ret %d out %s" (int_of_n r) (hex_of_bytes o)
-      | EOut o -> Printf.sprintf "out %s" (hex_of_bytes o)
+      | ERetOut (r, o) -> Hashtbl.replace saved ln (hex_of_bytes o);
+          Printf.sprintf "ret %d out %s" (int_of_n r) (hex_of_bytes o)
+      | EOut o -> Hashtbl.replace saved ln (hex_of_bytes o); Printf.sprintf "out %s" (hex_of_bytes o)
       | EDone -> "done"
       | EImg (r, b, None) -> Printf.sprintf "img %d %s" (int_of_n r) (hex_of_bytes b)
       | EImg (r, b, Some t) -> Printf.sprintf "img %d %s %s" (int_of_n r) (hex_of_bytes b) (hex_of_bytes t)
@@ -126,7 +135,7 @@ let () =
       incr ln;
       let line = String.trim line in
       if line <> "" && line.[0] <> '#' then begin
-        match parse (String.split_on_char ' ' line) with
+        match parse (List.map subst (String.split_on_char ' ' line)) with
         | None -> ()
         | Some o ->
             let (w', evs) = step !w o in
